@@ -11,6 +11,8 @@ def nat! (s : String) : Nat := s.toNat?.getD 0
 def parseCall : String → Option Call
   | "enq" => some .enqueue | "proc" => some .process | "one" => some .processOne
   | "ifE" => some (.processIf false) | "ifO" => some (.processIf true)
+  -- processUntil: stop at the first even / odd event id
+  | "untE" => some (.processUntil false) | "untO" => some (.processUntil true)
   | "take" => some .takeEvent | "peek" => some .peekEvent | "clear" => some .clearEvents
   | "empty" => some .emptyQueue | "wait" => some .wait | "waitfor" => some .waitFor
   | "dqnb" => some .dqnBegin | "dqne" => some .dqnEnd
